@@ -352,6 +352,29 @@ impl<'a, 'tcx> BodyCx<'a, 'tcx> {
         if let Some(v) = val {
             match v {
                 ConstValue::Scalar(s) => {
+                    // promoted `&<int>` constants (e.g. the precision argument of `{:.*}`)
+                    if let (ty::Ref(_, inner, _), rustc_middle::mir::interpret::Scalar::Ptr(ptr, _)) = (ty.kind(), s) {
+                        if matches!(inner.kind(), ty::Uint(_) | ty::Int(_)) {
+                            let (prov, off) = ptr.into_raw_parts();
+                            if let Some(rustc_middle::mir::interpret::GlobalAlloc::Memory(a)) = tcx.try_get_global_alloc(prov.alloc_id()) {
+                                let a = a.inner();
+                                let size = match inner.kind() {
+                                    ty::Uint(u) => u.bit_width().unwrap_or(64) / 8,
+                                    ty::Int(i) => i.bit_width().unwrap_or(64) / 8,
+                                    _ => 8,
+                                } as usize;
+                                let start = off.bytes() as usize;
+                                if start + size <= a.len() {
+                                    let bytes = a.inspect_with_uninit_and_ptr_outside_interpreter(start..start + size);
+                                    let mut v: u128 = 0;
+                                    for (i, b) in bytes.iter().enumerate() {
+                                        v |= (*b as u128) << (8 * i);
+                                    }
+                                    o.push(("ref_v", J::Int(v as i128)));
+                                }
+                            }
+                        }
+                    }
                     if let Ok(si) = s.try_to_scalar_int() {
                         let size = si.size();
                         let bits = si.to_bits(size);
